@@ -23,7 +23,8 @@ Local Open Scope list_scope.
 Record pquirks := mkq {
   q_keyed_dropna : bool    (* table_is_keyed_by_columns groups with the pandas default dropna=True: groups with a null key vanish *)
 }.
-Definition q_code : pquirks := mkq true.
+Definition q_code : pquirks := mkq false.             (* the code since /repo db5bdc2: the check groups with dropna=False *)
+Definition q_before_db5bdc2 : pquirks := mkq true.   (* before: pandas' default dropna=True *)
 
 Definition dec (n : nat) : string := NilEmpty.string_of_uint (Nat.to_uint n).       (* Python str(n) *)
 Definition sapp (a b : string) : string := String.append a b.
